@@ -20,13 +20,16 @@ type junkCell struct {
 }
 
 var junkDocs = map[string]string{
-	"configmap":     "apiVersion: v1\nkind: ConfigMap\nmetadata: {name: \"cm\", namespace: \"ns1\"}\ndata: {\"k\": \"v\"}\n",
-	"secret":        "apiVersion: v1\nkind: Secret\nmetadata: {name: \"s\", namespace: \"ns1\"}\ntype: Opaque\ndata: {\"p\": \"cGFzcw==\"}\n",
-	"crdinstance":   "apiVersion: example.com/v1\nkind: Widget\nmetadata: {name: \"w\", namespace: \"ns1\"}\nspec: {podSelector: {}, size: 3}\n",
-	"openshift":     "apiVersion: apps.openshift.io/v1\nkind: DeploymentConfig\nmetadata: {name: \"dc\", namespace: \"ns1\"}\nspec: {replicas: 1, selector: {app: \"dc\"}, template: {metadata: {labels: {app: \"dc\"}}, spec: {containers: [{name: c, image: i}]}}}\n",
-	"list":          "apiVersion: v1\nkind: ServiceAccount\nmetadata: {name: \"sa\", namespace: \"ns2\"}\n",
-	"kustomization": "apiVersion: kustomize.config.k8s.io/v1beta1\nkind: Kustomization\nresources: [\"all.yaml\"]\ncommonLabels: {\"team\": \"x\"}\n",
-	"kubeconfig":    "apiVersion: v1\nkind: Config\nclusters: []\ncontexts: []\ncurrent-context: \"\"\nusers: []\n",
+	// a Service that passes schema conversion but whose selector is no legal label selector (a value with a space): the analysis of
+	// Services / Ingresses / Routes cannot be built - a fatal error, not a severe one
+	"badsvcselector": "apiVersion: v1\nkind: Service\nmetadata: {name: \"legacy-svc\", namespace: \"default\"}\nspec:\n  selector: {app: \"legacy app\"}\n  ports: [{port: 80}]\n",
+	"configmap":      "apiVersion: v1\nkind: ConfigMap\nmetadata: {name: \"cm\", namespace: \"ns1\"}\ndata: {\"k\": \"v\"}\n",
+	"secret":         "apiVersion: v1\nkind: Secret\nmetadata: {name: \"s\", namespace: \"ns1\"}\ntype: Opaque\ndata: {\"p\": \"cGFzcw==\"}\n",
+	"crdinstance":    "apiVersion: example.com/v1\nkind: Widget\nmetadata: {name: \"w\", namespace: \"ns1\"}\nspec: {podSelector: {}, size: 3}\n",
+	"openshift":      "apiVersion: apps.openshift.io/v1\nkind: DeploymentConfig\nmetadata: {name: \"dc\", namespace: \"ns1\"}\nspec: {replicas: 1, selector: {app: \"dc\"}, template: {metadata: {labels: {app: \"dc\"}}, spec: {containers: [{name: c, image: i}]}}}\n",
+	"list":           "apiVersion: v1\nkind: ServiceAccount\nmetadata: {name: \"sa\", namespace: \"ns2\"}\n",
+	"kustomization":  "apiVersion: kustomize.config.k8s.io/v1beta1\nkind: Kustomization\nresources: [\"all.yaml\"]\ncommonLabels: {\"team\": \"x\"}\n",
+	"kubeconfig":     "apiVersion: v1\nkind: Config\nclusters: []\ncontexts: []\ncurrent-context: \"\"\nusers: []\n",
 	// resources of analysed kinds that fail schema conversion
 	"badnetpol": "apiVersion: networking.k8s.io/v1\nkind: NetworkPolicy\nmetadata: {name: \"broken-np\", namespace: \"ns1\"}\nspec:\n  podSelector: \"everything\"\n  ingress: [{}]\n",
 	"baddeploy": "apiVersion: apps/v1\nkind: Deployment\nmetadata: {name: \"broken-dep\", namespace: \"ns1\"}\nspec:\n  replicas: \"three\"\n  selector: {matchLabels: {app: \"x\"}}\n  template: {metadata: {labels: {app: \"x\"}}, spec: {containers: [{name: c, image: i}]}}\n",
@@ -66,7 +69,8 @@ func c13Cells() []junkCell {
 	cells = append(cells, junkCell{Kind: "dupnetpol", Placement: "file", Fatal: true}, junkCell{Kind: "dupnetpol", Placement: "last", Fatal: true})
 	// a fatal conflict next to a severe (malformed) document, recorded before or after it: the fatal error must still win
 	cells = append(cells, junkCell{Kind: "dupnetpol+severe-before", Placement: "file", Fatal: true}, junkCell{Kind: "dupnetpol+severe-after", Placement: "file", Fatal: true},
-		junkCell{Kind: "badcidr+severe-before", Placement: "file", Fatal: true})
+		junkCell{Kind: "badcidr+severe-before", Placement: "file", Fatal: true},
+		junkCell{Kind: "badsvcselector", Placement: "file", Fatal: true}, junkCell{Kind: "badsvcselector", Placement: "last", Fatal: true})
 	return cells
 }
 
@@ -74,7 +78,7 @@ func init() {
 	run.Register(&run.Check{
 		ID:    "C13",
 		Level: "fault_enumeration",
-		Rule: "fault enumeration: every (junk kind, placement) cell - 9 irrelevant kinds (a Kustomization and a kubeconfig, which carry no metadata.name; two custom resources whose kind is spelled like a used one and which are named like a real Service / Route of the input) and 5 schema-conversion failures x {own file, first/middle/last document of a valid file}, 6 unreadable/malformed file kinds (two syntax errors, HTML, binary, dangling symlink, symlink loop), 5 harmless files (empty .yaml, .txt, .md, .png, non-manifest .json), a fatal duplicate-NetworkPolicy conflict alone and next to a severe document recorded before / after it, a fatal invalid CIDR next to a severe document - is applied to sampled valid worlds (case index mod number of cells picks the cell); " +
+		Rule: "fault enumeration: every (junk kind, placement) cell - 9 irrelevant kinds (a Kustomization and a kubeconfig, which carry no metadata.name; two custom resources whose kind is spelled like a used one and which are named like a real Service / Route of the input) and 5 schema-conversion failures x {own file, first/middle/last document of a valid file}, 6 unreadable/malformed file kinds (two syntax errors, HTML, binary, dangling symlink, symlink loop), 5 harmless files (empty .yaml, .txt, .md, .png, non-manifest .json), a fatal duplicate-NetworkPolicy conflict alone and next to a severe document recorded before / after it, a fatal invalid CIDR next to a severe document, a Service whose selector is no legal label selector (fatal: the ingress analysis cannot be built) - is applied to sampled valid worlds (case index mod number of cells picks the cell); " +
 			"oracles over paired real runs: list(valid+junk) = list(valid) point-wise, severe(with) - severe(without) >= injected bad items for list AND for diff with the junk in dir1, in dir2 and different junk on both sides, stop-on-error + severe => empty result or error on ConnlistFromDirPath, ConnlistFromResourceInfos and diff, fatal => error and no result for list and diff, diff(valid+junk, valid) has no added/removed/changed entry; " +
 			"non-trivial = the valid twin's report is non-empty and the cell injects a bad or fatal item; distinct = world hash + cell",
 		Assumptions:       []string{"a syntax error ends the decoding of its own file, so broken content is injected as whole files only", "an empty file and files without manifest extension are neither errors nor inputs"},
